@@ -139,3 +139,37 @@ Definition imports_sorted (r : registry) : list imp :=
 (* qualifiers pairwise distinct: the invariant under which searchImport is a function *)
 Definition inv_distinct (r : registry) : bool := nodupb (map qualifier r).
 Definition paths_distinct (r : registry) : bool := nodupb (map i_path r).
+
+(* ---- a conflict that is resolved DIRECTLY: at level l, the first at which the two packages'
+   unique names differ, neither name is held by a third import (Distinct_Proofs.v proves that
+   such additions keep the qualifiers pairwise distinct; the check counts how many of a run's
+   additions are of this kind) ---- *)
+Definition un (i : imp) (l : nat) : string := unique_name (i_path i) l.
+Definition held_only_by (r : registry) (q : string) (c : imp) : bool :=
+  match search_import r q with None => true | Some x => String.eqb (i_path x) (i_path c) end.
+Definition direct (r : registry) (i c : imp) (l : nat) : bool :=
+  forallb (fun k => String.eqb (un i k) (un c k)) (seq 0 l)
+  && negb (String.eqb (un i l) (un c l))
+  && negb (String.eqb (un i l) "") && negb (String.eqb (un c l) "")
+  && held_only_by r (un i l) c && held_only_by r (un c l) c.
+Fixpoint first_diff (i c : imp) (l fuel : nat) : option nat :=
+  match fuel with
+  | O => None
+  | S f => if String.eqb (un i l) (un c l) then first_diff i c (S l) f else Some l
+  end.
+(* 0: known or the destination, 1: no conflict, 2: conflict resolved directly, 3: anything else *)
+Definition classify_add (cfg : rcfg) (r : registry) (p : pkg) : nat :=
+  let path := strip_vendor (p_path p) in
+  if String.eqb path (moq_pkg_path cfg) then 0
+  else match find_path r path with
+  | Some _ => 0
+  | None =>
+    let i := mkImp path (p_name p) (match assoc path (src_aliases cfg) with Some a => a | None => "" end) in
+    match search_import r (qualifier i) with
+    | None => 1
+    | Some c => match first_diff i c 0 16 with
+                | Some l => if direct r i c l then 2 else 3
+                | None => 3
+                end
+    end
+  end.
